@@ -34,6 +34,13 @@ Scope decisions (review round):
     mask, same argument handling; 1-sample axis -> 0.
   * a map with a single row or column: the nested trapezoid integral is 0 (what the code returns); the full-band
     bound then holds with equality (every sample is an outermost one): theorem full_band_total_measured_all.
+  * DTYPES and LAYOUTS (round 3): a boolean / integer array is a legitimate "user array" window (a 0/1 aperture as a rect
+    window, 8-bit weights) and a legitimate real height map (raw counts); memory layout is not a value.  The family
+    bool / uint8 / int8 / int16 / int32 / int64 / float32 / float64 (values using the RANGE of the type) x C / Fortran /
+    transposed / strided / negative-stride goes through psd(), make_window(), Interferogram.psd / bandlimited_rms /
+    total_integrated_scatter and (r and psd arrays) bandlimited_rms(); every right-hand side is computed in float64 from
+    the VALUES; each call is repeated with the same argument objects (own check + harness.common.pure_call) and compared
+    with the call on C-contiguous copies.  Found: narrow integer windows / PSD arrays wrapped around -> fixed.
 """
 import contextlib
 import itertools
@@ -47,7 +54,11 @@ RULE = ('psd: every shape (m,n) with 1<=m,n<=S (S=8 quick, 12 thorough; all pari
         'crafted for both automatic branches: generic data / zero corners on >=26-sample axes / all-zero small '
         'maps), the names hann/hanning/welch in 7+4 capitalisations in rotation (positional and keyword), user arrays '
         '(ones, random positive); variants (real code): every spelling of every name, welch with alpha in {1,2,2.5,6,8} '
-        'handed over as an array, signed and float32 user windows, float32 / int64 / int32 maps, float32 / int dx; peak: '
+        'handed over as an array, signed and float32 user windows, float32 / int64 / int32 maps, float32 / int dx; dtype x layout: '
+        'maps AND user windows of bool/uint8/int8/int16/int32/int64/float32/float64 using the range of the type, in C / Fortran / '
+        'transposed / strided / negative-stride layouts (all 64 dtype pairs per shape, all 25 layout pairs), named and automatic windows '
+        'on every map dtype, each call repeated with the same objects; bandraw: r (6 dtypes) and psd (8 dtypes) arrays x 5 layouts straight '
+        'into bandlimited_rms; methods on Interferogram data of every dtype / layout; peak: '
         'on-grid cosine of every admissible integer frequency pair; bands: edges drawn strictly between distinct sample '
         'radii, plus an edge exactly on a sample radius, as frequencies, as periods, one edge of each kind, positionally, '
         'and no edge at all, float32 r/psd, under both NumPy configurations; 1-D r/psd of 1..14 (40) samples on |f|, signed '
@@ -157,17 +168,67 @@ def _config(kind):
 # ------------------------------------------------------------------------------------------------
 # deterministic inputs from a case dict
 # ------------------------------------------------------------------------------------------------
-DTYPES = {'float64': np.float64, 'float32': np.float32, 'int64': np.int64, 'int32': np.int32}
+DTYPES = {'float64': np.float64, 'float32': np.float32, 'int64': np.int64, 'int32': np.int32, 'int16': np.int16,
+          'int8': np.int8, 'uint8': np.uint8, 'bool': np.bool_}
+ALL_DTYPES = ('bool', 'uint8', 'int8', 'int16', 'int32', 'int64', 'float32', 'float64')
+LAYOUTS = ('C', 'F', 'T', 'strided', 'neg')
+
+
+def _layout(a, kind):
+    """the same VALUES in another memory layout: C / Fortran contiguous, the transpose view of a C array, a strided view
+    into a larger array, a view with negative strides"""
+    a = np.asarray(a)
+    if kind in (None, 'C'):
+        return np.ascontiguousarray(a)
+    if kind == 'F':
+        return np.asfortranarray(a)
+    if kind == 'T':
+        return np.ascontiguousarray(a.T).T
+    if kind == 'strided':
+        if a.ndim == 1:
+            big = np.zeros(3 * a.shape[0] + 1, dtype=a.dtype)
+            v = big[1::3]
+        else:
+            big = np.zeros((2 * a.shape[0] + 1, 3 * a.shape[1] + 2), dtype=a.dtype)
+            v = big[1::2, 2::3]
+        v[...] = a
+        return v
+    if kind == 'neg':
+        sl = tuple(slice(None, None, -1) for _ in range(a.ndim))
+        return np.ascontiguousarray(a[sl])[sl]
+    raise ValueError(kind)
+
+
+def _typed_values(rng, dt, shape, signed=True, nonzero=False):
+    """values that use the RANGE of the type (so that arithmetic carried out in a narrow integer type would wrap around):
+    bool: coin flips; (u)int8 / int16: the whole range; int32: +-60000 (squares exceed 2^31); int64: +-10^6; floats: normal"""
+    if dt == 'bool':
+        v = rng.random(shape) < 0.6
+        if nonzero:
+            v.flat[0] = True
+        return v
+    if dt in ('float32', 'float64'):
+        return rng.standard_normal(shape).astype(DTYPES[dt])
+    lim = {'uint8': 255, 'int8': 127, 'int16': 32767, 'int32': 60000, 'int64': 10 ** 6}[dt]
+    lo = 0 if (dt == 'uint8' or not signed) else -lim
+    v = rng.integers(lo, lim + 1, size=shape)
+    if nonzero:
+        v = np.where(v == 0, 1, v)
+    return v.astype(DTYPES[dt])
 
 
 def _height(case):
-    h = _height64(case)
     dt = case.get('dtype', 'float64')
-    if dt == 'float64':
-        return h
-    if dt.startswith('int'):
-        return np.rint(h * 100).astype(DTYPES[dt])      # an integer height map (e.g. raw counts)
-    return h.astype(DTYPES[dt])
+    if case.get('fullrange'):
+        # integer / boolean maps that use the whole range of their type
+        h = _typed_values(np.random.default_rng(case['seed']), dt, tuple(case['shape']))
+    else:
+        h = _height64(case)
+        if dt.startswith('int'):
+            h = np.rint(h * 100).astype(DTYPES[dt])      # an integer height map (e.g. raw counts)
+        elif dt != 'float64':
+            h = h.astype(DTYPES[dt])
+    return _layout(h, case['hlayout']) if 'hlayout' in case else h
 
 
 def _height64(case):
@@ -248,7 +309,7 @@ def _dx(case):
 
 HANN_NAMES = ('hann', 'Hann', 'HANN', 'hanning', 'Hanning', 'HANNING', 'hAnN')
 WELCH_NAMES = ('welch', 'Welch', 'WELCH', 'wELch')
-ARRAY_WINDOWS = ('ones', 'user', 'user32', 'welch_alpha', 'signed')
+ARRAY_WINDOWS = ('ones', 'user', 'user32', 'welch_alpha', 'signed', 'typed')
 
 
 def _window_family(w):
@@ -278,6 +339,11 @@ def _window_arg(case, h):
         return np.random.default_rng(case['seed'] + 7919).random((m, n)) + 0.1
     if w == 'user32':
         return (np.random.default_rng(case['seed'] + 7919).random((m, n)) + 0.1).astype(np.float32)
+    if w == 'typed':     # a user array of any real dtype (a 0/1 aperture mask used as a rect window, 8-bit weights, ...) and layout
+        a = _typed_values(np.random.default_rng(case['seed'] + 7919), case['wdtype'], (m, n), nonzero=True)
+        if case['wdtype'] in ('float32', 'float64'):
+            a = np.abs(a) + 0.1
+        return _layout(a, case.get('wlayout', 'C'))
     if w == 'signed':      # a user array need not be positive (the Welch window itself is negative in the corners)
         return np.random.default_rng(case['seed'] + 7919).standard_normal((m, n))
     if w == 'welch_alpha':   # the only way to hand `alpha` to the PSD: make the window first, pass it as an array
@@ -314,7 +380,7 @@ def _expect_valid_window(case):
 
 def _valid_window(w, shape):
     w = np.asarray(w)
-    return w.shape == tuple(shape) and w.dtype.kind in 'fiu' and bool(np.isfinite(w).all()) and float((w.astype(float) ** 2).sum()) > 0
+    return w.shape == tuple(shape) and w.dtype.kind in 'fiub' and bool(np.isfinite(w).all()) and float((w.astype(float) ** 2).sum()) > 0
 
 
 @contextlib.contextmanager
@@ -398,6 +464,26 @@ def _real_psd(case):
     if not np.array_equal(h, h0) or (w0 is not None and not np.array_equal(warg, w0)):
         raise AssertionError('aliasing: psd() modified the height map / the window array of its caller in place')
     w = rec[-1] if rec else np.asarray(itf.make_window(h, _dx(case), warg))
+    if case.get('repeat'):
+        # the same argument OBJECTS again: the answer may not depend on the earlier call, the arguments stay untouched
+        first = [np.array(a, copy=True) for a in (ux, uy, p)]
+        ux2, uy2, p2 = itf.psd(h, _dx(case), warg)
+        if not all(np.asarray(a).shape == b.shape and np.array_equal(a, b, equal_nan=True) for a, b in zip((ux2, uy2, p2), first)):
+            raise AssertionError('history: a second psd() call with the same argument objects returns something else')
+        if not all(np.array_equal(a, b, equal_nan=True) for a, b in zip((ux, uy, p), first)):
+            raise AssertionError('aliasing: the arrays returned by the first psd() call changed during the second call')
+        if not np.array_equal(h, h0) or (w0 is not None and not np.array_equal(warg, w0)):
+            raise AssertionError('aliasing: psd() modified the height map / the window array of its caller in place (second call)')
+    if case.get('hlayout', 'C') != 'C' or case.get('wlayout', 'C') != 'C':
+        # memory layout is not a value: the same numbers handed over as C-contiguous arrays give the same PSD
+        wc = np.ascontiguousarray(warg) if isinstance(warg, np.ndarray) else warg
+        pc = np.asarray(itf.psd(np.ascontiguousarray(h), _dx(case), wc)[2])
+        lt = max(1e-12, _rtol(h, warg if isinstance(warg, np.ndarray) else 0.0, p) if any(
+            np.asarray(a).dtype == np.float32 for a in (h, warg if isinstance(warg, np.ndarray) else 0.0)) else 1e-12)
+        # (a float32 window is squared and summed in single precision: the order of summation follows the layout)
+        if not (pc.shape == np.shape(p) and np.allclose(pc, p, rtol=lt, atol=lt * float(np.abs(pc).max(initial=0.0)), equal_nan=True)):
+            raise AssertionError(f'layout: psd() of the {case.get("hlayout", "C")}-layout map / {case.get("wlayout", "C")}-layout window '
+                                 f'differs from the PSD of C-contiguous copies of the same values')
     return h, np.asarray(w), np.asarray(ux), np.asarray(uy), np.asarray(p)
 
 
@@ -441,9 +527,9 @@ def pred_psd(case):
     try:
         h, w, ux, uy, p = _real_psd(case)
     except AssertionError as ex:
-        return [('psd_pure', str(ex))]
+        return [('psd_layout' if str(ex).startswith('layout') else 'psd_pure', str(ex))]
     except Exception as ex:
-        return [('psd', f'psd(height {m}x{n} {case.get("dtype", "float64")}, dx, window={case["window"]!r}) raised '
+        return [('psd', f'psd(height {m}x{n} {case.get("dtype", "float64")}, dx, window={case["window"]!r} {case.get("wdtype", "")}) raised '
                         f'{type(ex).__name__}: {ex}')]
     out += pred_window(case)
     if p.shape != (m, n) or ux.shape != (m, n) or uy.shape != (m, n):
@@ -722,6 +808,74 @@ def pred_band1d(case):
     return out
 
 
+def _bandraw_setup(case):
+    """r and psd arrays of ANY real dtype and memory layout handed straight to bandlimited_rms.  The radial grid is
+    hypot of the axes (i - m//2) A, (j - n//2) B with integer steps A, B, rounded to integers when r has an integer type
+    (the predicates take r as it is: they hold for every r); the PSD samples use the range of their type"""
+    m, n = case['shape']
+    A, B = case['steps']
+    rng = np.random.default_rng(case['seed'])
+    fy = (np.arange(m) - m // 2) * float(A)
+    fx = (np.arange(n) - n // 2) * float(B)
+    r = np.hypot(fx[None, :], fy[:, None])
+    rdt, pdt = case['rdtype'], case['pdtype']
+    r = np.rint(r).astype(DTYPES[rdt]) if rdt[0] in 'iu' else r.astype(DTYPES[rdt])
+    p = _typed_values(rng, pdt, (m, n), signed=False)
+    if pdt in ('float32', 'float64'):
+        p = np.abs(p)
+    return _layout(r, case.get('rlayout', 'C')), _layout(p, case.get('playout', 'C'))
+
+
+def pred_bandraw(case):
+    itf, _ = _impl()
+    m, n = case['shape']
+    cfg = case['config']
+    r, p = _bandraw_setup(case)
+    r0, p0 = r.copy(), p.copy()
+    rf, pf = r.astype(float), p.astype(float)
+    # the steps as bandlimited_rms measures them, taken from r itself in float64
+    c0, c1 = m // 2, n // 2
+    dy, dxs = abs(rf[c0 - 1, c1] - rf[c0, c1]), abs(rf[c0, c1 - 1] - rf[c0, c1])
+    u = np.unique(rf)
+    cuts = [0.5 * (a + b) for a, b in zip(u[:-1], u[1:])]
+    rng = np.random.default_rng(case['seed'] + 5)
+    if len(cuts) >= 3:
+        k = sorted(rng.choice(len(cuts), size=3, replace=False))
+        a, b, c = (float(cuts[i]) for i in k)
+    else:
+        a, b, c = 0.0, float(u[-1]) + 0.25, float(u[-1]) + 1.5
+    out = []
+    try:
+        with _config(cfg):
+            calls = [('full', dict(flow=0, fhigh=float(u[-1]) + 1)), ('ac', dict(flow=a, fhigh=c)), ('ab', dict(flow=a, fhigh=b)),
+                     ('bc', dict(flow=b, fhigh=c)), ('ac again', dict(flow=a, fhigh=c)), ('full again', dict(flow=0, fhigh=float(u[-1]) + 1))]
+            got = {}
+            for name, kw in calls:
+                v = itf.bandlimited_rms(r, p, **kw)
+                got[name] = float(v) ** 2
+    except Exception as ex:
+        return [('brms_raises', f'bandlimited_rms(r {case["rdtype"]} {case.get("rlayout", "C")}, psd {case["pdtype"]} {case.get("playout", "C")}) raised '
+                                f'{type(ex).__name__}: {ex} under configuration {cfg}')]
+    if not (np.array_equal(r, r0) and np.array_equal(p, p0)):
+        out.append(('brms_pure', 'bandlimited_rms modified the r / psd arrays of its caller in place'))
+    scale = max(_band_sum(rf, pf, -1.0, float(u[-1]) + 1, dy, dxs), 1e-300)
+    tol = _rtol(r, p) * scale
+    if abs(got['ac'] - got['ac again']) > 0 or abs(got['full'] - got['full again']) > 0:
+        out.append(('brms_pure', f'the same call on the same arrays gives {got["ac"]!r} then {got["ac again"]!r} (full band {got["full"]!r} then '
+                                 f'{got["full again"]!r})'))
+    for name, lo, hi in (('full', -1.0, float(u[-1]) + 1), ('ac', a, c), ('ab', a, b), ('bc', b, c)):
+        want = _band_sum(rf, pf, lo, hi, dy, dxs)
+        if not abs(got[name] - want) <= tol:
+            out.append(('band_value', f'r {case["rdtype"]}/{case.get("rlayout", "C")}, psd {case["pdtype"]}/{case.get("playout", "C")} {m}x{n}: brms^2 over '
+                                      f'[{lo:.6g},{hi:.6g}] = {got[name]!r}; the trapezoid sum of the PSD VALUES (in float64) with the steps of r is {want!r}'))
+            break
+    if abs(got['ac'] - (got['ab'] + got['bc'])) > tol:
+        out.append(('band_additive', f'brms^2[a,c] = {got["ac"]!r}, brms^2[a,b] + brms^2[b,c] = {got["ab"] + got["bc"]!r} (psd {case["pdtype"]})'))
+    if got['ab'] > got['ac'] + tol or got['ac'] > got['full'] + tol:
+        out.append(('band_monotone', f'widening decreased the band-limited RMS: [a,b] {got["ab"]!r} [a,c] {got["ac"]!r} full {got["full"]!r} (psd {case["pdtype"]})'))
+    return out
+
+
 def _disc(m, n, frac=0.42):
     yy, xx = np.mgrid[0:m, 0:n]
     return np.hypot(xx - n // 2, yy - m // 2) <= frac * min(m, n)
@@ -733,8 +887,8 @@ def _method_object(case):
     documented preparation for spectral analysis; on >= 26 samples per axis the automatic window then takes its Welch
     branch, so that branch is reached through the public methods"""
     itf, _ = _impl()
-    h = _height(case)
-    ifg = itf.Interferogram(h.copy(), dx=_dx(case))
+    h = _height(case)         # a fresh array on every call; handed over as it is when the case prescribes a memory layout
+    ifg = itf.Interferogram(h if 'hlayout' in case else h.copy(), dx=_dx(case))
     if case.get('prep') == 'aperture':
         m, n = case['shape']
         ifg.mask(_disc(m, n))
@@ -782,8 +936,8 @@ def pred_methods(case):
         out.append(('psd_axes', 'Interferogram.psd(): x / y are not (i - n//2)/(n dx) along columns / rows'))
     w = rec[-1] if rec else np.asarray(itf.make_window(data, _dx(case), None))
     if _valid_window(w, (m, n)):
-        lhs = float(Pd.sum()) / (n * dx) / (m * dx)
-        rhs = float(((data * w) ** 2).sum() / (w ** 2).sum())
+        lhs = float(Pd.astype(float).sum()) / (n * dx) / (m * dx)
+        rhs = float(((data.astype(float) * w.astype(float)) ** 2).sum() / (w.astype(float) ** 2).sum())
         if not (np.isfinite(lhs) and abs(lhs - rhs) <= TOL * max(abs(rhs), 1e-300)):
             out.append(('parseval', f'Interferogram.psd(): sum(psd)*dfx*dfy = {lhs!r}, mean square of the data weighted by the '
                                     f'window that was used = {rhs!r}'))
@@ -1018,7 +1172,7 @@ def pred_history(case, verbose=False):
     return out
 
 
-PRED = {'psd': pred_psd, 'band': pred_band, 'band1d': pred_band1d, 'methods': pred_methods,
+PRED = {'psd': pred_psd, 'band': pred_band, 'band1d': pred_band1d, 'bandraw': pred_bandraw, 'methods': pred_methods,
         'synth': lambda c: pred_synth(c)[0], 'history': pred_history}
 
 
@@ -1152,6 +1306,54 @@ def _band_cases(ctx):
     return cases
 
 
+def _dtype_layout_cases(ctx):
+    """the dtype x layout family (real code): height maps AND user window arrays of bool / uint8 / int8 / int16 / int32 / int64 /
+    float32 / float64, using the range of the type, in C / Fortran / transposed / strided / negative-stride layouts; every
+    height dtype also with the named and automatic windows; each call repeated with the same argument objects"""
+    rng = ctx.rng
+    cases = []
+    shapes = [(3, 3), (4, 5), (5, 4), (6, 7)] + [(int(rng.integers(3, 16)), int(rng.integers(3, 16))) for _ in range(ctx.scale(1, 8))]
+    k = 0
+    for (m, n) in shapes:
+        base = lambda **kw: {'kind': 'psd', 'shape': [m, n], 'dx': _logdx(rng), 'seed': _seed(rng), 'data': 'normal',   # noqa: E731
+                             'fullrange': True, 'repeat': True, **kw}
+        for hdt in ALL_DTYPES:
+            for wdt in ALL_DTYPES:
+                k += 1
+                cases.append(base(dtype=hdt, window='typed', wdtype=wdt, hlayout=LAYOUTS[k % 5], wlayout=LAYOUTS[(k // 5 + k) % 5]))
+            for win in (None, 'hann', 'Welch'):
+                k += 1
+                cases.append(base(dtype=hdt, window=win, hlayout=LAYOUTS[k % 5]))
+    # every layout pair once, on float64 and on the narrowest types
+    for hl in LAYOUTS:
+        for wl in LAYOUTS:
+            for (hdt, wdt) in (('float64', 'float64'), ('uint8', 'uint8'), ('float32', 'bool')):
+                cases.append({'kind': 'psd', 'shape': [5, 7], 'dx': _logdx(rng), 'seed': _seed(rng), 'data': 'normal', 'fullrange': True,
+                              'repeat': True, 'dtype': hdt, 'window': 'typed', 'wdtype': wdt, 'hlayout': hl, 'wlayout': wl})
+    return cases
+
+
+def _bandraw_cases(ctx):
+    rng = ctx.rng
+    cases = []
+    shapes = [(2, 2), (3, 4), (5, 5), (4, 7)] + [(int(rng.integers(2, 14)), int(rng.integers(2, 14))) for _ in range(ctx.scale(1, 8))]
+    k = 0
+    for (m, n) in shapes:
+        for pdt in ALL_DTYPES:
+            for rdt in ('float64', 'float32', 'int64', 'int32', 'int16', 'uint8'):
+                k += 1
+                A, B = int(rng.integers(1, 6)), int(rng.integers(1, 6))
+                if rdt == 'uint8' and np.hypot((m // 2 + 1) * A, (n // 2 + 1) * B) > 250:
+                    A = B = 1
+                cases.append({'kind': 'bandraw', 'shape': [m, n], 'steps': [A, B], 'seed': _seed(rng), 'rdtype': rdt, 'pdtype': pdt,
+                              'rlayout': LAYOUTS[k % 5], 'playout': LAYOUTS[(k // 5 + 2 * k) % 5], 'config': CONFIGS[k % 2]})
+    for rl in LAYOUTS:
+        for pl in LAYOUTS:
+            cases.append({'kind': 'bandraw', 'shape': [5, 6], 'steps': [2, 3], 'seed': _seed(rng), 'rdtype': 'float64', 'pdtype': 'float64',
+                          'rlayout': rl, 'playout': pl, 'config': CONFIGS[len(cases) % 2]})
+    return cases
+
+
 def _band1d_cases(ctx):
     rng = ctx.rng
     cases = []
@@ -1183,6 +1385,13 @@ def _method_cases(ctx):
     for k, dt in enumerate(('float32', 'int32')):
         cases.append({'kind': 'methods', 'shape': [7 + k, 6], 'dx': float(10 ** rng.uniform(-1, 1)), 'seed': _seed(rng),
                       'data': 'normal', 'scale': 100.0, 'config': CONFIGS[k % 2], 'dtype': dt})
+    # the data of the Interferogram in every real dtype (range of the type) and memory layout
+    for k, dt in enumerate(ALL_DTYPES):
+        for j, lay in enumerate(LAYOUTS):
+            if (k + j) % (1 if ctx.thorough else 2):
+                continue
+            cases.append({'kind': 'methods', 'shape': [5 + (k + j) % 4, 4 + j], 'dx': float(10 ** rng.uniform(-1, 1)), 'seed': _seed(rng),
+                          'data': 'normal', 'config': CONFIGS[(k + j) % 2], 'dtype': dt, 'fullrange': True, 'hlayout': lay})
     return cases
 
 
@@ -1329,6 +1538,22 @@ def _correspondence(ctx):
         for item, detail in pred_psd(case):
             ctx.pred_fail(item, case, detail)
 
+    # ---------------- dtype x layout family: height maps and user windows of every real dtype / memory layout (real code only)
+    for case in _dtype_layout_cases(ctx):
+        m, n = case['shape']
+        ctx.case('psd_dtypes', case, nontrivial=True,
+                 tag=f'h={case["dtype"]}/{case.get("hlayout", "C")}/w={case.get("wdtype", case["window"])}/{case.get("wlayout", "-")}')
+        for item, detail in pred_psd(case):
+            ctx.pred_fail(item, case, detail)
+        # harness.common purity guard on the same argument objects (psd and make_window are documented as pure)
+        try:
+            h = _height(case)
+            warg = _window_arg(case, h)
+            C.pure_call(ctx, 'psd_pure', case, itf.psd, h, _dx(case), warg)
+            C.pure_call(ctx, 'psd_pure', case, itf.make_window, h, _dx(case), warg)
+        except Exception:
+            pass        # raising is reported by pred_psd above
+
     # ---------------- peaks of on-grid cosines on the returned axes; Parseval on larger shapes (real code only)
     for case in _peak_cases(ctx):
         m, n = case['shape']
@@ -1366,6 +1591,29 @@ def _correspondence(ctx):
                 continue
             lines.append(f'brmsr {m} {n} {C.f2w(lo)} {C.f2w(hi)} {_fl(r)} {_fl(p)}')
             jobs.append(('brms', ({**case, 'band': [lo, hi]}, got, float(p.astype(float).sum() / (m * n * case['dx'] ** 2)), _rtol(r, p))))
+
+    # ---------------- r / psd arrays of every real dtype and memory layout straight into bandlimited_rms
+    for case in _bandraw_cases(ctx):
+        m, n = case['shape']
+        ctx.case('bandraw', case, nontrivial=True, tag=f'r={case["rdtype"]}/{case["rlayout"]}/p={case["pdtype"]}/{case["playout"]}/{case["config"]}')
+        for item, detail in pred_bandraw(case):
+            ctx.pred_fail(item, case, detail)
+        try:
+            r, p = _bandraw_setup(case)
+            with _config(case['config']):
+                C.pure_call(ctx, 'brms_pure', case, itf.bandlimited_rms, r, p, flow=0.5, fhigh=float(r.max()) * 0.6 + 1)
+        except Exception:
+            pass
+        if True:
+            try:
+                r, p = _bandraw_setup(case)
+                lo, hi = 0.5, float(r.astype(float).max()) * 0.7 + 0.5
+                got = _brms(itf, case['config'], r, p, flow=lo, fhigh=hi)
+                rf, pf = r.astype(float), p.astype(float)
+                lines.append(f'brmsr {m} {n} {C.f2w(lo)} {C.f2w(hi)} {_fl(rf)} {_fl(pf)}')
+                jobs.append(('brmsraw', ({**case, 'band': [lo, hi]}, got, float(pf.sum() * case['steps'][0] * case['steps'][1]), _rtol(r, p))))
+            except Exception as ex:
+                ctx.disagree('brms', {**case, 'band': 'raw'}, f'raised {type(ex).__name__}: {ex}', 'model returns a value')
 
     # ---------------- the 1-D form of bandlimited_rms (r, psd one-dimensional)
     for case in _band1d_cases(ctx):
@@ -1469,6 +1717,12 @@ def _correspondence(ctx):
                 q = np.unravel_index(np.argmax(np.abs(p - mod)), p.shape)
                 ctx.disagree('psd', case, f'psd[{q}] = {p[q]!r}; argmax {np.unravel_index(p.argmax(), p.shape)}',
                              f'model psd[{q}] = {mod[q]!r}; argmax {np.unravel_index(mod.argmax(), mod.shape)}')
+        elif kind == 'brmsraw':
+            case, got, scale, tol = payload
+            s0, s1, mod = _parse(row)
+            ctx.case('brms', case, nontrivial=True)
+            if not (abs(got - mod) <= tol * max(scale, abs(mod), 1e-300)):
+                ctx.disagree('brms', case, got, mod, note=f'r {case["rdtype"]} psd {case["pdtype"]}: model on the float64 values; model steps {s0!r} {s1!r}')
         elif kind == 'brms1d':
             case, got, scale, step, tol = payload
             n = case['n']
@@ -1567,6 +1821,18 @@ def _search(ctx, hints):
             f = _first_fail({'kind': 'psd', 'shape': [m, n], 'dx': 0.5, 'seed': 11, 'window': 'hann', 'data': 'normal', **extra})
             if f:
                 return f
+    # 3b. dtype x layout of the map and of a user window
+    for (hdt, wdt) in itertools.product(ALL_DTYPES, repeat=2):
+        for k, (m, n) in enumerate([(3, 3), (4, 5)]):
+            f = _first_fail({'kind': 'psd', 'shape': [m, n], 'dx': 0.5, 'seed': 11, 'data': 'normal', 'fullrange': True, 'repeat': True,
+                             'dtype': hdt, 'window': 'typed', 'wdtype': wdt, 'hlayout': LAYOUTS[(k + len(hdt)) % 5], 'wlayout': LAYOUTS[(k + len(wdt)) % 5]})
+            if f:
+                return f
+    for (pdt, rdt) in itertools.product(ALL_DTYPES, ('float64', 'int16', 'uint8')):
+        f = _first_fail({'kind': 'bandraw', 'shape': [3, 4], 'steps': [2, 3], 'seed': 5, 'rdtype': rdt, 'pdtype': pdt, 'rlayout': 'T',
+                         'playout': 'strided', 'config': 'numpy2'})
+        if f:
+            return f
     # 4. bands (2-D, then the 1-D form)
     for (m, n) in shapes:
         for cfg in CONFIGS:
@@ -1688,7 +1954,11 @@ MANIFEST_ENTRY = {
              'bandlimited_rms 2-D and 1-D (both NumPy configurations), rescale; property predicates on the real outputs incl. '
              'spectral peak location of on-grid cosines on the returned axes, window names in every capitalisation, alpha, dtypes, '
              'band edges in every form, aperture -> fill(0) through the methods on >= 26 samples, TIS for array angles, purity of '
-             'psd/bandlimited_rms/render, histories on ONE Interferogram.'),
+             'psd/bandlimited_rms/render, histories on ONE Interferogram; the dtype x layout family (maps, user windows, r / psd arrays of '
+             'bool / (u)int8 / int16 / int32 / int64 / float32 / float64 in C / F / transposed / strided / negative-stride layouts through '
+             'every entry point, right-hand sides in float64 from the values, repeated calls with the same objects).  Translated facts '
+             'psdArithmeticInFloatingPoint / brmsWorksInFloatingPoint: the sum of squares, the product height*window and the integrated '
+             'copy pass a conversion to a floating type (dtype conversions are looked through for the VALUE theorems).'),
     'note': ('Partial in these respects: theorems are over R/C, not floats; scipy.fft.fft2 = DFT sum, fftshift/ifftshift/'
              'fftfreq index maps and np.trapezoid are trusted primitives (the index maps are compared exhaustively each run); '
              'window VALUES (hann/welch formulas, alpha, the 2% corner heuristic) are deliberately outside the property — only that '
